@@ -34,6 +34,12 @@ impl InputVariant {
         }
     }
 
+    /// Whether this variant is the one a bare word produces: it says `word` and is
+    /// not skipped. A skipped variant is never produced, so `skip` wins over `word`.
+    pub(crate) fn is_word_variant(&self) -> bool {
+        self.word.map(|x| *x).unwrap_or_default() && !self.skip.unwrap_or_default()
+    }
+
     /// Whether code generation can produce a `FromMeta` match arm for this variant:
     /// unit, newtype and struct variants are supported, other tuple variants are not
     /// unless the variant is skipped.
